@@ -166,6 +166,44 @@ Fixpoint contains (s p : str) : bool :=
 (* parseRepositoryIndex: key names that are paths are refused *)
 Definition keyname_ok (k : str) : bool := negb (contains k (la keyname_forbidden)).
 
+(* ---- cachedPackage: the cache member named by .PKGINFO's datahash ------------- *)
+
+Definition is_hex_char (c : ascii) : bool :=
+  let n := N_of_ascii c in
+  ((48 <=? n) && (n <=? 57) || (65 <=? n) && (n <=? 70) || (97 <=? n) && (n <=? 102))%N.
+
+(* hex.DecodeString(s) succeeds: an even number of hexadecimal digits *)
+Definition hex_ok (s : str) : bool := Nat.even (List.length s) && forallb is_hex_char s.
+
+(* dat := filepath.Join(cacheDir, datahash+".dat.tar.gz"); the datahash is the
+   text of the cached control section's .PKGINFO line, unsanitised *)
+Definition cache_member_path (cacheDir datahash : str) : str :=
+  join [cacheDir; datahash ++ la cached_dat_suffix].
+
+(* exp.TarFile = strings.TrimSuffix(exp.PackageFile, ".gz") *)
+Definition cache_member_tar (cacheDir datahash : str) : str :=
+  trim_suffix (cache_member_path cacheDir datahash) (la cached_tar_trim).
+
+(* What cachedPackage does with the name, in source order (the control file is
+   there and carries exactly one datahash value):
+     os.Stat(dat)                         -- a read; error = cache miss
+     hex.DecodeString(datahash)           -- error = cache miss
+     exp.PackageData(): os.Open(TarFile); if it does not exist: os.Open(dat),
+       os.CreateTemp(filepath.Dir(TarFile), "*.tmp"), os.Rename(tmp, TarFile)
+   [false] = the path is only read, [true] = something is created or replaced
+   there (for the temporary file: in that directory). *)
+Definition cached_package_touches (cacheDir datahash : str) (dat_exists : bool) : list (bool * str) :=
+  let dat := cache_member_path cacheDir datahash in
+  let tarf := cache_member_tar cacheDir datahash in
+  (false, dat) ::
+  (if dat_exists && (if cached_hex_before_data then hex_ok datahash else true)
+   then [(false, tarf); (false, dat); (true, dir tarf); (true, tarf)]
+   else []).
+
+(* the uncompressed tar is rebuilt next to the member (it did not exist before) *)
+Definition cached_rebuilds (datahash : str) (dat_exists : bool) : bool :=
+  dat_exists && (if cached_hex_before_data then hex_ok datahash else true).
+
 (* ---- the in-memory trees (memfs.go and tarfs/fs.go) --------------------------- *)
 
 Inductive node :=
